@@ -15,6 +15,8 @@ type vJoinEnv struct {
 	awaiting bool    // no-copy: a slice is out and not released yet
 	t0       int64
 	closedAt int // number of deliveries when the input was seen closed (-1 unknown)
+	acc       []int64 // acceptance time of every element inside the discipline, oldest first
+	mustFlush bool    // a tick was taken at least Timeout after acc[0]: a delivery must come next
 }
 
 func vJoinSetup(timed bool) *vJoinEnv {
@@ -71,8 +73,29 @@ func vJoinSetup(timed bool) *vJoinEnv {
 	} else {
 		vSink(d.output)
 	}
+	if timed {
+		vOnRecv(in, func(v any, ok bool) {
+			vAssert(!e.mustFlush, "C10: a tick taken at least Timeout after the oldest buffered element was accepted flushes the buffer (an arrival never postpones the deadline of what is already buffered)")
+			if ok {
+				vAdvance()
+				e.acc = append(e.acc, vNow())
+			}
+		})
+		vOnTick(func() {
+			vAssert(!e.mustFlush, "C10: a tick taken at least Timeout after the oldest buffered element was accepted flushes the buffer (an arrival never postpones the deadline of what is already buffered)")
+			if len(e.acc) > 0 && vNow()-e.acc[0] >= int64(opts.Timeout) {
+				e.mustFlush = true
+			}
+		})
+	}
 	vOnSend(d.output, func(v any) {
 		s := v.([]int)
+		e.mustFlush = false
+		if len(s) <= len(e.acc) {
+			e.acc = e.acc[len(s):]
+		} else {
+			e.acc = nil
+		}
 		vAssert(len(s) > 0, "C03: no output slice is empty")
 		vAssert(len(s) <= JS, "C03: a join slice never has more than JoinSize elements")
 		vAssert(!e.awaiting, "C08: no further output is produced before the previous no-copy slice was released")
